@@ -389,7 +389,7 @@ impl FatVolume {
     }
 
     /// Finds a empty entry space and writes the new entry to it, allocates a new cluster if it's
-    /// needed
+    /// needed. The new entry refers to `first_cluster` (which may be `ClusterId::EMPTY`).
     pub(crate) fn write_new_directory_entry<D, T>(
         &mut self,
         block_cache: &mut BlockCache<D>,
@@ -397,6 +397,7 @@ impl FatVolume {
         dir_cluster: ClusterId,
         name: ShortFileName,
         attributes: Attributes,
+        first_cluster: ClusterId,
     ) -> Result<DirEntry, Error<D::Error>>
     where
         D: BlockDevice,
@@ -439,7 +440,7 @@ impl FatVolume {
                                 let entry = DirEntry::new(
                                     name,
                                     attributes,
-                                    ClusterId::EMPTY,
+                                    first_cluster,
                                     ctime,
                                     block_idx,
                                     (i * OnDiskDirEntry::LEN) as u32,
@@ -502,7 +503,7 @@ impl FatVolume {
                                 let entry = DirEntry::new(
                                     name,
                                     attributes,
-                                    ClusterId(0),
+                                    first_cluster,
                                     ctime,
                                     block_idx,
                                     (i * OnDiskDirEntry::LEN) as u32,
@@ -1054,8 +1055,7 @@ impl FatVolume {
                     let block = block_cache
                         .read(this_fat_block_num)
                         .map_err(Error::DeviceError)?;
-                    while this_fat_ent_offset <= Block::LEN - 2
-                        && current_cluster.0 < end_cluster.0
+                    while this_fat_ent_offset <= Block::LEN - 2 && current_cluster.0 < end_cluster.0
                     {
                         let fat_entry = LittleEndian::read_u16(
                             &block[this_fat_ent_offset..=this_fat_ent_offset + 1],
@@ -1086,8 +1086,7 @@ impl FatVolume {
                     let block = block_cache
                         .read(this_fat_block_num)
                         .map_err(Error::DeviceError)?;
-                    while this_fat_ent_offset <= Block::LEN - 4
-                        && current_cluster.0 < end_cluster.0
+                    while this_fat_ent_offset <= Block::LEN - 4 && current_cluster.0 < end_cluster.0
                     {
                         let fat_entry = LittleEndian::read_u32(
                             &block[this_fat_ent_offset..=this_fat_ent_offset + 3],
@@ -1296,9 +1295,12 @@ impl FatVolume {
 
     /// Create a new directory.
     ///
-    /// 1) Creates the directory entry in the parent
-    /// 2) Allocates a new cluster to hold the new directory
-    /// 3) Writes out the `.` and `..` entries in the new directory
+    /// 1) Allocates a new cluster to hold the new directory
+    /// 2) Writes out the `.` and `..` entries in the new directory
+    /// 3) Creates the directory entry in the parent
+    ///
+    /// Doing it in this order means a power cut never leaves the parent
+    /// pointing at a directory that hasn't been written yet.
     pub(crate) fn make_dir<D, T>(
         &mut self,
         block_cache: &mut BlockCache<D>,
@@ -1311,15 +1313,47 @@ impl FatVolume {
         D: BlockDevice,
         T: TimeSource,
     {
-        let mut new_dir_entry_in_parent =
-            self.write_new_directory_entry(block_cache, time_source, parent, sfn, att)?;
-        if new_dir_entry_in_parent.cluster == ClusterId::EMPTY {
-            new_dir_entry_in_parent.cluster = self.alloc_cluster(block_cache, None, false)?;
-            // update the parent dir with the cluster of the new dir
-            self.write_entry_to_disk(block_cache, &new_dir_entry_in_parent)?;
+        let new_dir_cluster = self.alloc_cluster(block_cache, None, false)?;
+        let result = self
+            .write_new_directory_contents(block_cache, time_source, parent, new_dir_cluster, att)
+            .and_then(|_| {
+                self.write_new_directory_entry(
+                    block_cache,
+                    time_source,
+                    parent,
+                    sfn,
+                    att,
+                    new_dir_cluster,
+                )
+            });
+        match result {
+            Ok(new_dir_entry_in_parent) => {
+                debug!("Made new dir entry {:?}", new_dir_entry_in_parent);
+                Ok(())
+            }
+            Err(e) => {
+                // It didn't work out, so hand the cluster back (as best we can)
+                let _ = self.release_cluster_chain(block_cache, new_dir_cluster);
+                Err(e)
+            }
         }
-        let new_dir_start_block = self.cluster_to_block(new_dir_entry_in_parent.cluster);
-        debug!("Made new dir entry {:?}", new_dir_entry_in_parent);
+    }
+
+    /// Fills in the first cluster of a new directory: the `.` and `..`
+    /// entries, and then nothing but zeroes.
+    fn write_new_directory_contents<D, T>(
+        &mut self,
+        block_cache: &mut BlockCache<D>,
+        time_source: &T,
+        parent: ClusterId,
+        new_dir_cluster: ClusterId,
+        att: Attributes,
+    ) -> Result<(), Error<D::Error>>
+    where
+        D: BlockDevice,
+        T: TimeSource,
+    {
+        let new_dir_start_block = self.cluster_to_block(new_dir_cluster);
         let now = time_source.get_timestamp();
         let fat_type = self.get_fat_type();
         // A blank block
@@ -1331,7 +1365,7 @@ impl FatVolume {
             ctime: now,
             attributes: att,
             // point at ourselves
-            cluster: new_dir_entry_in_parent.cluster,
+            cluster: new_dir_cluster,
             size: 0,
             entry_block: new_dir_start_block,
             entry_offset: 0,
